@@ -74,6 +74,14 @@ fn compound_terms<U: User, E: Engine<U>>(
 #[cfg(feature = "clpfd")]
 fn enforce_constraints_fd<U: User, E: Engine<U>>(x: LTerm<U, E>) -> Goal<U, E> {
     proto_vulcan!([
+        // Re-examine every constraint with the final bindings before labeling: a constraint
+        // that bound its own operands when it was posted has not been checked against them.
+        fngoal |_engine, state| {
+            match state.run_constraints() {
+                Ok(state) => Stream::unit(Box::new(state)),
+                Err(_) => Stream::empty(),
+            }
+        },
         force_ans(x),
         fngoal | engine,
         state | {
